@@ -221,6 +221,9 @@ def all_cases(tier):
                     if parent == "class" and allmode != "none":
                         continue
                     yield ("V", n, parent, allmode, how)
+    # __all__ spliced from a local list: the list variable itself is not exported (what __all__ holds before expansion is an expression, not the variable's name)
+    for n in ("extra", "_extra"):
+        yield ("V", n, "module", "spliced", "assign")
     if tier == "thorough":
         small = [s for s in small if not (s[0] == "block" and s[1] == "try-full")]  # (four-arm blocks stay in the pairs above)
         for s1 in small:
@@ -567,11 +570,14 @@ def build(case):
             r.emit("__all__ = []", 0)  # declared, and lists nothing: every object of the module is private
         elif allmode == "not-listed":
             r.emit('__all__ = ["other"]', 0)
+        elif allmode == "spliced":
+            r.emit(f'{n} = ["other"]', 0)
+            r.emit(f'__all__ = ["more", *{n}]', 0)
         if how in ("import", "import-then-def"):
             r.emit(f"from m2 import {n}", ind)
         if how in ("def", "import-then-def"):
             r.emit(f"def {n}({'self' if parent == 'class' else ''}): ...", ind)
-        if how == "assign":
+        if how == "assign" and allmode != "spliced":
             r.emit(f"{n} = 1", ind)
         return "\n".join(r.lines) + "\n", [], "m.K" if parent == "class" else "m", parent
     raise AssertionError(case)
